@@ -885,6 +885,10 @@ pub fn ser(cx: &mut Raw) {
         "9223372036854775807", "(-9223372036854775807 - 1)", "18446744073709551615u", "0u", "1.5", "5e-324", "1.7976931348623157e308", "-0.0", "1.0/0.0", "-1.0/0.0", "0.0/0.0",
         "true", "null", "'é𝄞\\n'", "b'\\x00\\xff'", "[1, 2u, 3.5, 'x', b'y', null, true, [1], {'k': 2}]", "{'a': [1, {'b': null}], 'é': 1.0/0.0}", "int", "type(1)", "[int, string, type(null)]",
         "timestamp('2024-02-29T12:34:56.789Z')", "timestamp(0)", "duration('1h2m3s')", "duration(1, 500000000)", "duration('1ms')", "duration(0, 1000000)",
+        // time constants far from the present (any fixed-width sub-second encoding of them overflows)
+        "timestamp('2300-01-01T00:00:00Z')", "timestamp('1600-01-01T00:00:00Z')", "timestamp('0001-01-01T00:00:00Z')", "timestamp('9999-12-31T23:59:59Z')",
+        "timestamp(253402300799)", "timestamp(-62135596800)", "[timestamp('2262-04-12T00:00:00Z'), timestamp('1677-09-21T00:00:00Z')]",
+        "duration(9000000000, 0)", "duration(-9000000000, 0)", "duration('2540400h')", "{'t': timestamp('3000-06-01T00:00:00Z')}",
         "1/0", "[1/0]", "{'k': 1 % 0}", "size(5)", "[1, 2][5]", "-(-9223372036854775807 - 1)",
         "a + b", "a.b.c", "a[b]", "f(a, b + 1)", "a.f(b)", "a ? b : c", "a || b && !c", "-a", "a in b", "a < b", "a <= b", "a == b", "a != b", "a >= b", "a > b", "a - b", "a * b", "a / b", "a % b",
         "[a, b]", "{'k': a, c: b}", "a.map(x, x + b)", "a.filter(x, x > b)", "a.reduce(acc, x, acc + x, 0)", "has(m.a)", "coalesce(m.zz, a)", "f'{a}-{b}'", "match a { case int: 1, case > b: 2, case _: 3 }",
@@ -1068,6 +1072,12 @@ pub fn params(cx: &mut Raw) {
         ("in-list", Box::new(|v| bin("in", lit(V::Int(1)), T::List(vec![v])))),
         ("paren", Box::new(|v| T::Paren(Box::new(v)))),
         ("type-constructor", Box::new(|v| call("int", vec![v]))),
+        // beside a clock call, which is never folded
+        ("beside-clock-argument", Box::new(|v| call("min", vec![v, mcall(call("now", vec![]), "getFullYear", vec![])]))),
+        ("clock-receiver-argument", Box::new(|v| mcall(call("now", vec![]), "getHours", vec![v]))),
+        ("argument-after-clock", Box::new(|v| call("max", vec![call("int", vec![call("timestamp", vec![])]), v]))),
+        ("clock-comparison", Box::new(|v| bin(">", call("now", vec![]), v))),
+        ("clock-in-macro-body", Box::new(|v| mcall(T::List(vec![lit(V::Int(1))]), "map", vec![id("e"), bin("+", call("int", vec![call("now", vec![])]), v)]))),
     ];
     for (name, f) in positions.iter() {
         params_record(cx, &f(q()), name);
